@@ -513,6 +513,57 @@ def rw_continue_to_return(body, tail, log):
     return body
 
 
+def rw_no_panic(text, log):
+    """R23 (automatic): `assert!(c, ..)`, `assert_eq!(a, b, ..)`, `assert_ne!(a, b, ..)`, `panic!(..)`, `unreachable!(..)`, `todo!()` in extracted
+    code become the obligation that the condition holds (resp. that the point is unreachable): `assert(c)` / `assert(a == b)` / `assert(false)`.
+    A panic in a worker or pool thread is swallowed by the thread machinery (the process can still exit 0), so code under contract must not
+    be able to panic; the one deliberate abort (a failed status send inside a pool job) is rewritten to `verif_panic!` by its contract
+    beforehand and is not touched here.  `debug_assert*!` is left alone (compiled out of release builds)."""
+    n = 0
+    while True:
+        st = rtok.sig(rtok.lex(text))
+        hit = None
+        for i in range(len(st) - 2):
+            if st[i][0] == 'ident' and st[i][1] in ('assert', 'assert_eq', 'assert_ne', 'panic', 'unreachable', 'todo') and st[i + 1][1] == '!' \
+                    and st[i + 2][1] in ('(', '[', '{') and st[i - 1][1] not in ('.', '::', '_'):
+                hit = i
+                break
+        if hit is None:
+            break
+        i = hit
+        close = rtok.match_close(st, i + 2)
+        kind = st[i][1]
+        parts = _split_args(st, i + 2, close)
+        argt = [text[st[a][2]:st[b - 1][3]] for a, b in parts]
+        if kind == 'assert' and argt:
+            rep = 'assert(%s)' % argt[0]
+        elif kind == 'assert_eq' and len(argt) >= 2:
+            rep = 'assert((%s) == (%s))' % (argt[0], argt[1])
+        elif kind == 'assert_ne' and len(argt) >= 2:
+            rep = 'assert((%s) != (%s))' % (argt[0], argt[1])
+        else:
+            rep = '{ assert(false); verif_panic!() }'
+        text = _replace_spans(text, [(st[i][2], st[close][3], rep)])
+        n += 1
+    if n:
+        log.append('R23 %d assert!/panic!-family macro(s) -> the obligation that they cannot fire' % n)
+    return text
+
+
+def rw_std_prefix(text, log):
+    """R24 (automatic): a fully qualified `std::fs::f(..)` / `std::io::..` / `std::cmp::..` / `std::thread::..` names the same item as the
+    `fs::f` the file imports; the stand-ins live in modules of those names, so the `std::` prefix is dropped."""
+    st = rtok.sig(rtok.lex(text))
+    spans = []
+    for i in range(len(st) - 3):
+        if st[i][1] == 'std' and st[i + 1][1] == '::' and st[i + 2][1] in ('fs', 'io', 'cmp', 'thread') and st[i + 3][1] == '::' and st[i - 1][1] != '::':
+            spans.append((st[i][2], st[i + 2][2], ''))
+    if spans:
+        log.append('R24 %d `std::` prefix(es) of fs/io/cmp/thread paths dropped' % len(spans))
+        return _replace_spans(text, spans)
+    return text
+
+
 def rw_closure_underscore(text, log):
     """R15 (automatic): closure parameter `|_|` -> `|_e|` (Verus rejects `_` closure parameters)"""
     st = rtok.sig(rtok.lex(text))
@@ -1103,6 +1154,8 @@ def build_fn(fs, repo, effectful, table_keys, canary=False):
 
     text = rw_drop_inner_use(text, log)
     text = rw_closure_underscore(text, log)
+    text = rw_no_panic(text, log)
+    text = rw_std_prefix(text, log)
     text = rw_loop_break_head(text, log)
     if fs.external and getattr(fs, 'skipped', False):
         r12 = {}      # left-out function: the body is dropped, nothing to rewrite
@@ -1313,7 +1366,13 @@ def build_fn(fs, repo, effectful, table_keys, canary=False):
                     add(st[sb][3], '\n' + txt, ('ob', insr.oid))
             off = None
         else:
-            a, b = find_anchor(st, insr.anchor, body_open + 1, body_close)
+            try:
+                a, b = find_anchor(st, insr.anchor, body_open + 1, body_close)
+            except AnchorLost:
+                if getattr(insr, 'optional', False):
+                    log.append('optional proof step skipped: anchor `%s` is not in this body' % insr.anchor)
+                    continue
+                raise
             sa, sb = stmt_bounds(st, a, b, body_open + 1, body_close)
             if insr.where == 'before':
                 off = st[sa][2]
